@@ -571,6 +571,78 @@ func c13Scenarios(tier string) []*world.Scenario {
 			}
 		}
 	}
+	// several redirects outstanding at the same time: two / three pipelined requests for keys of a migrating (ASK) or moved
+	// slot, their redirect replies in one read or in separate reads (how many a read carries is an enumerated choice)
+	for _, mix := range []string{"ask,ask", "moved,moved", "ask,moved", "ask,ask,ask", "ask,get,ask"} {
+		kinds := strings.Split(mix, ",")
+		var reqs []Req
+		redirect := map[string]string{}
+		for j, kd := range kinds {
+			k := keysA[5+j]
+			if kd == "get" {
+				k = keysB[6]
+			} else {
+				redirect[k] = kd
+			}
+			reqs = append(reqs, GetReq(k))
+		}
+		reqs = append(reqs, GetReq(keysC[1]))
+		sc := &world.Scenario{Nodes: T3m(), Bound: b, Horizon: 120, Family: "concurrent-redirects", CoalesceChoice: true, FreeKinds: []string{"coalesce"}, ReadCap: 256, WriteCap: 256}
+		sc.Clients = []world.ClientSpec{ClientOf(reqs, true)}
+		sc.Reply = func(w *world.World, bc *world.BConn, args [][]byte) ([]byte, int) {
+			if len(args) < 2 {
+				return nil, 0
+			}
+			kd, ok := redirect[string(args[1])]
+			if !ok {
+				return nil, 0
+			}
+			slot := world.SpecSlot(args[1])
+			if bc.Addr == AddrA {
+				if kd == "ask" {
+					return askTo(slot, AddrB), 0
+				}
+				return movedTo(slot, AddrB), 0
+			}
+			if bc.Addr == AddrB && kd == "ask" {
+				n := len(bc.Log)
+				if n > 0 && world.Lower(bc.Log[n-1].Args[0]) == "asking" {
+					return nil, 0
+				}
+				return movedTo(slot, AddrA), 0 // not preceded by ASKING: the importing node refuses
+			}
+			return nil, 0
+		}
+		sc.Name = fmt.Sprintf("C13/concurrent-redirects/%s/d%d", mix, b)
+		sc.Check = func(w *world.World) []world.Violation {
+			for _, bc := range w.BConns {
+				if bc.Addr != AddrB {
+					continue
+				}
+				for i, rec := range bc.Log {
+					if len(rec.Args) > 1 && redirect[string(rec.Args[1])] == "ask" && (i == 0 || world.Lower(bc.Log[i-1].Args[0]) != "asking") {
+						return []world.Violation{{Sig: "ask-without-asking", Msg: fmt.Sprintf("after -ASK the request %q was re-sent to %s without a directly preceding ASKING", rec.Raw, AddrB)}}
+					}
+				}
+			}
+			if len(w.Cmds) > 40 || w.HorizonHit {
+				return []world.Violation{{Sig: "unbounded-redirects", Msg: fmt.Sprintf("%d commands were sent for %d requests", len(w.Cmds), len(reqs))}}
+			}
+			svs := CheckStreams(w, StreamOpts{})
+			for i := range svs {
+				switch svs[i].Sig {
+				case "missing-tail":
+					svs[i].Sig = "redirect-request-unanswered"
+				case "duplicate", "extra-bytes":
+					svs[i].Sig = "redirect-reply-duplicated"
+				case "forwarded-swap":
+					svs[i].Sig = "redirect-out-of-order"
+				}
+			}
+			return svs
+		}
+		out = append(out, sc)
+	}
 	// slot numbers at the edges of the redirect line's number field: slot 0, a one-digit slot, the last slot of the range
 	initSlotKeys()
 	for _, rc := range c13Cases[:3] {
